@@ -931,3 +931,43 @@ func crossFacts(s *src, f *facts) {
 	f.b("clConvertsEveryArg", every, "")
 
 }
+
+// round9Facts:
+//   rwJudgesFieldSignatureOnly  the walk over a remote definition judges a function field by ITS OWN signature only and
+//        descends into struct-KINDED fields only: no `.In(k)` with k ≠ 0, no pointer handling (reflect.Ptr / Pointer /
+//        reflect.New), no call into the closure validation (C18: "every function-typed field … takes a context first and
+//        returns either an error or a value and an error; … non-function fields are ignored").
+//   hooksNeverWritten           the library only READS the hook structs the application hands it: no assignment to a field
+//        of a RegistryHooks / LinkHooks value anywhere (one LinkHooks value may be shared by concurrently established links).
+func round9Facts(s *src, f *facts) {
+	w := s.funcDecl("Registry", "implementRemoteStructRecursively")
+	own := w != nil
+	if w != nil {
+		for _, c := range all[*ast.CallExpr](w.Body, nil) {
+			fn := s.str(c.Fun)
+			if strings.HasSuffix(fn, ".In") && (len(c.Args) != 1 || s.str(c.Args[0]) != "0") {
+				own = false
+			}
+			if fn == "reflect.New" || fn == "reflect.PointerTo" || fn == "reflect.PtrTo" || strings.HasPrefix(fn, "validate") || fn == "createClosure" || fn == "registerClosure" {
+				own = false
+			}
+		}
+		txt := s.str(w.Body)
+		if strings.Contains(txt, "reflect.Ptr") || strings.Contains(txt, "reflect.Pointer") {
+			own = false
+		}
+	}
+	f.b("rwJudgesFieldSignatureOnly", own, s.pos(w))
+
+	written := ""
+	for name, file := range s.files {
+		for _, a := range all[*ast.AssignStmt](file, nil) {
+			for _, l := range a.Lhs {
+				if se, ok := l.(*ast.SelectorExpr); ok && (se.Sel.Name == "OnClientConnect" || se.Sel.Name == "OnClientDisconnect") {
+					written = name + ":" + s.pos(a)
+				}
+			}
+		}
+	}
+	f.b("hooksNeverWritten", written == "", written)
+}
